@@ -804,16 +804,6 @@ pub fn emit_d4_dead_chain(cnf: &Cnf, x: i32, opts: &Opts) -> Option<(Vec<String>
     // the dead branch must not be the only place where a feature is mentioned (in d4's own output
     // a feature mentioned below a false edge is always mentioned on a live branch as well; the
     // loader decides "unmentioned = free" before it removes dead branches)
-    let live_vars: BTreeSet<u32> = neg
-        .iter()
-        .flatten()
-        .map(|l| l.unsigned_abs())
-        .chain(implied.iter().map(|l| l.unsigned_abs()))
-        .chain(std::iter::once(x.unsigned_abs()))
-        .collect();
-    if pos.iter().flatten().any(|l| !live_vars.contains(&l.unsigned_abs())) {
-        return None;
-    }
     let o2 = Opts { keep_false: false, and_false: false, ..opts.clone() };
     let dpos = compile(&pos, &o2)?;
     let dneg = compile(&neg, &o2)?;
@@ -824,6 +814,27 @@ pub fn emit_d4_dead_chain(cnf: &Cnf, x: i32, opts: &Opts) -> Option<(Vec<String>
     lines.push("3 4 0".to_string());
     lines.push(format!("2 {} 0", rp));
     let (ln, rn, _) = emit_d4_offset(&dneg, next);
+    // features MENTIONED (edge literals) in the dead part must also be mentioned in the live part
+    fn mentioned(lines: &[String]) -> BTreeSet<u32> {
+        let mut s = BTreeSet::new();
+        for l in lines {
+            let t: Vec<&str> = l.split_whitespace().collect();
+            if t.len() >= 3 && t[0].parse::<i64>().is_ok() {
+                for x in &t[2..t.len() - 1] {
+                    if let Ok(v) = x.parse::<i64>() {
+                        s.insert(v.unsigned_abs() as u32);
+                    }
+                }
+            }
+        }
+        s
+    }
+    let mut live_vars = mentioned(&ln);
+    live_vars.extend(implied.iter().map(|l| l.unsigned_abs()));
+    live_vars.insert(x.unsigned_abs());
+    if mentioned(&lines).iter().any(|v| !live_vars.contains(v)) {
+        return None;
+    }
     lines.extend(ln);
     lines.push(format!("1 2 {} 0", x));
     let mut s = format!("1 {} {}", rn, -x);
@@ -835,4 +846,72 @@ pub fn emit_d4_dead_chain(cnf: &Cnf, x: i32, opts: &Opts) -> Option<(Vec<String>
     let mut eff = cnf.clone();
     eff.push(vec![-x]);
     Some((lines, eff))
+}
+
+/// d4 text with n-ary or nodes: multiway decisions on blocks of 1..3 variables; a branch whose
+/// cofactor is a tautology over the remaining variables goes straight to the true node, so that
+/// the loader has to smooth in several features at once below one or-child
+pub fn emit_d4_multiway(models: &[u32], n: u32, rng: &mut Rng) -> Vec<String> {
+    struct B {
+        lines: Vec<String>,
+        next: usize,
+        t: Option<usize>,
+    }
+    fn tnode(b: &mut B) -> usize {
+        if let Some(t) = b.t {
+            return t;
+        }
+        let id = b.next;
+        b.next += 1;
+        b.lines.push(format!("t {} 0", id));
+        b.t = Some(id);
+        id
+    }
+    fn go(b: &mut B, models: &[u32], vars: &[u32], rng: &mut Rng) -> usize {
+        let id = b.next;
+        b.next += 1;
+        b.lines.push(format!("o {} 0", id));
+        let k = (1 + rng.below(3) as usize).min(vars.len());
+        let (block, rest) = vars.split_at(k);
+        let mut edges = Vec::new();
+        for a in 0..(1u32 << k) {
+            let sel: Vec<u32> = models
+                .iter()
+                .copied()
+                .filter(|m| block.iter().enumerate().all(|(i, v)| ((m >> (v - 1)) & 1) == ((a >> i) & 1)))
+                .collect();
+            if sel.is_empty() {
+                continue;
+            }
+            let lits: Vec<i32> = block
+                .iter()
+                .enumerate()
+                .map(|(i, v)| if (a >> i) & 1 == 1 { *v as i32 } else { -(*v as i32) })
+                .collect();
+            // distinct projections onto the rest variables
+            let mut proj: Vec<u32> = sel.iter().map(|m| rest.iter().fold(0u32, |acc, v| acc | (m & (1 << (v - 1))))).collect();
+            proj.sort();
+            proj.dedup();
+            let child = if rest.is_empty() || proj.len() == (1usize << rest.len()) {
+                tnode(b)
+            } else {
+                go(b, &sel, rest, rng)
+            };
+            edges.push((lits, child));
+        }
+        for (lits, c) in edges {
+            let mut s = format!("{} {}", id, c);
+            for l in lits {
+                s.push_str(&format!(" {}", l));
+            }
+            s.push_str(" 0");
+            b.lines.push(s);
+        }
+        id
+    }
+    let mut b = B { lines: Vec::new(), next: 1, t: None };
+    let mut vars: Vec<u32> = (1..=n).collect();
+    rng.shuffle(&mut vars);
+    go(&mut b, models, &vars, rng);
+    b.lines
 }
